@@ -14,6 +14,7 @@ func genValidation(repo string) string {
 		{"Validator", "validatePartialLeafsOnly"}, {"Validator", "resolvePath"}, {"Validator", "promotedField"},
 		{"Validator", "coversValue"}, {"Validator", "validateAll"}, {"Validator", "determineStrategy"},
 		{"Validator", "formatTagErrors"}, {"Validator", "ValidatePartial"}, {"Validator", "validateWithTags"},
+		{"Validator", "Validate"}, {"Validator", "validateByStrategy"},
 		{"", "getJSONFieldName"}, {"", "buildFieldMap"}, {"", "isPromotedStruct"}, {"", "elementTag"},
 		{"Validator", "coerceToValidationErrors"}, {"PresenceMap", "LeafPaths"}, {"", "markPresence"}, {"", "ComputePresence"},
 		{"Error", "Sort"}, {"Error", "Add"}, {"Error", "AddError"},
